@@ -16,7 +16,7 @@ class C12(Prop):
     quick_budget_s = 60
     rule = ('typed tables (1..4 nullable columns over int / double / string / boolean, 0..6 rows, doubles dyadic so float '
             'arithmetic is exact) split into 1..4 partitions x chains of 1..3 relational operations (select with aliased '
-            'expressions or, in one chain of eight, a first projection of bare columns that lists one twice, withColumn (new and existing name), filter, drop, withColumnRenamed, toDF, union, unionByName, distinct, '
+            'expressions or, in one chain of eight, a projection of bare columns that lists one twice (followed by at least one more step), withColumn (new and existing name), filter, drop, withColumnRenamed, toDF, union, unionByName, distinct, '
             'dropDuplicates, orderBy with per-key direction and nulls first/last, limit) whose expressions are type-directed trees '
             'of depth <= 3 over arithmetic, comparison, AND/OR/NOT, null tests, between, coalesce, when/otherwise. The collected '
             'rows and column names are compared with the Lean model and the Lean SQL reference: ordered while the row order is '
@@ -44,7 +44,9 @@ class C12(Prop):
             fresh[0] += 1
             return 'n%d' % fresh[0]
         repeated = rng.random() < .12      # a chain that starts from a projection listing a column twice (SELECT i, i, d)
-        for step in range(max(2, rng.randint(1, 3)) if repeated else rng.randint(1, 3)):
+        nsteps = max(2, rng.randint(1, 3)) if repeated else rng.randint(1, 3)
+        rep_step = rng.randrange(nsteps - 1) if repeated else -1      # the repeating projection is not the last step
+        for step in range(nsteps):
             choices = ['select', 'select', 'withColumn', 'withColumn', 'filter', 'filter', 'orderBy', 'orderBy', 'drop', 'rename', 'toDF',
                        'union', 'unionByName', 'distinct', 'dropDuplicates']
             if ordered:
@@ -58,7 +60,7 @@ class C12(Prop):
                 # renames may name them (both copies are renamed), key lists use the other columns only; unionByName needs unique names
                 if op == 'unionByName':
                     op = 'union'        # by name needs unique names; the positional union does not
-            if repeated and step == 0:
+            if step == rep_step and not dup:
                 picks = [rng.randrange(len(cur_names)) for _ in range(rng.randint(1, 3))]
                 picks.insert(rng.randint(0, len(picks)), rng.choice(picks))
                 case['ops'].append({'op': 'select', 'cols': [{'e': {'op': 'col', 'i': i}, 'name': cur_names[i], 'bare': True} for i in picks]})
